@@ -324,10 +324,11 @@ func Main(scenarios func() []Scenario) {
 					fmt.Printf("FREERUN-TIMEOUT %s (free-running body did not finish in 60 s)\n", sc.Name)
 					os.Exit(4)
 				}
-				if out := check(); out.Violation != "" {
-					odd++
-					fmt.Printf("FREERUN-OUTCOME %s: %s\n", sc.Name, out.Violation)
-				}
+				// the scenario's oracle assumes quiescence (under the scheduler an execution ends when every thread has
+				// finished or is parked); a free run has no such notion, so the oracle is NOT judged here - this pass
+				// only looks for data races. Give background goroutines a moment, then run check() for its accesses.
+				time.Sleep(100 * time.Millisecond)
+				_ = check()
 				if teardown != nil {
 					teardown()
 				}
